@@ -246,7 +246,7 @@ func (e *SimFault) Error() string { return e.Token }
 
 type stepCapPanic struct{}
 
-const stepCap = 200000
+const stepCap = 30000
 
 type Handle struct {
 	core     *Core
